@@ -94,8 +94,14 @@ Row(dd, jj) ==
   IN [off |-> off, on |-> on, both |-> both]
 
 DagLevel(dd) == Clauses({
+   \* the activation flag is a dependency: a non-debug node may not be activated by a debug node's result, a setup node
+   \* only by a setup node's result
+   <<Dags[dd].actdep[1] # 0 /\ Dags[dd].built /\ Ds[dd].kind[Dags[dd].actdep[2]] = "debug" /\ Ds[dd].kind[Dags[dd].actdep[1]] # "debug",
+     "C13.illegal-built">>,
+   <<Dags[dd].actdep[1] # 0 /\ Dags[dd].built /\ Ds[dd].kind[Dags[dd].actdep[1]] = "setup" /\ Ds[dd].kind[Dags[dd].actdep[2]] # "setup",
+     "C11.illegal-built">>,
    <<Dags[dd].setuparg # 0 /\ Dags[dd].built, "C11.setup-takes-dag-argument">>,
-   <<Dags[dd].setuparg = 0 /\ Legal(Ds[dd]) /\ ~Dags[dd].built, "C11.legal-rejected">>,
+   <<Dags[dd].setuparg = 0 /\ Dags[dd].actdep[1] = 0 /\ Legal(Ds[dd]) /\ ~Dags[dd].built, "C11.legal-rejected">>,
    <<~Legal(Ds[dd]) /\ Dags[dd].built /\ \E n \in Nodes(Ds[dd]) : Ds[dd].kind[n] = "setup" /\ \E x \in Ds[dd].deps[n] : Ds[dd].kind[x] # "setup", "C11.illegal-built">>,
    <<~Legal(Ds[dd]) /\ Dags[dd].built /\ \E n \in Nodes(Ds[dd]) : Ds[dd].kind[n] # "debug" /\ \E x \in Ds[dd].deps[n] : Ds[dd].kind[x] = "debug", "C13.illegal-built">>})
 
